@@ -45,18 +45,26 @@ Theorem C13_wf_nonvacuous : wf_sig sig_stream = true /\ wf_sig sig_star = true /
 Proof. exact wf_nonvacuous. Qed.
 Print Assumptions C13_wf_nonvacuous.
 
-(* latent divergence of the two scanners (no generated signature is known to trigger it) *)
-Theorem C13_scanners_disagree :
-  wf_sig sig_disagree = true /\ proto_gen sig_disagree = false /\ mock_gen sig_disagree = true.
-Proof. exact scanners_disagree. Qed.
-Print Assumptions C13_scanners_disagree.
+(* F13c: the two scanners decide "async generator" by searching the text AsyncIterator — the Protocol in the
+   closing line, the mock in the whole signature.  A component schema whose class name contains that text
+   triggers it on ordinary operations (witness replayed on the implementation by corpus/C13/F13c.json):
+   sig_ai_ret (coroutine returning AsyncIteratorInfo): Protocol stub is a plain `def`, mock is an async
+   generator; sig_disagree (coroutine with a parameter AsyncIterator[int]): Protocol stays `async def`, the
+   mock is an async generator.  By C13_protocol_lines / C13_mock_lines these are the emitted texts. *)
+Theorem C13_refuted_F13c :
+  guard_F13c [s_AsyncIteratorInfo] = false
+  /\ wf_args sig_ai_ret = true /\ s_kind sig_ai_ret = Coroutine
+  /\ proto_kw sig_ai_ret = k_def /\ mock_gen sig_ai_ret = true
+  /\ wf_args sig_disagree = true /\ s_kind sig_disagree = Coroutine
+  /\ proto_kw sig_disagree = k_async_def /\ mock_gen sig_disagree = true.
+Proof. exact refuted_F13c. Qed.
+Print Assumptions C13_refuted_F13c.
 
 (* Grouping.  Under single_tag and tags_spelled_uniformly, for ALL operation lists and all
    normalisation / scoring functions: the mock groups are the endpoint groups (same keys up to
    normalisation, same operations, same order), the canonical tag chosen for each key by the emitter —
    and hence by ClientVisitor (C07_clients_mirror) — is the raw tag MocksEmitter uses, and every mock
-   group is found under its key.  PARTIAL: equality of the two property-name sets of MockAPIClient and
-   APIClient (sort, last-write-wins, identifier checks) is validated by the correspondence run only. *)
+   group is found under its key.  The equality of the two property-name sets is C13_same_tags_partial below. *)
 Theorem C13_partial : forall tag_key score l,
   guard_F13a l = true -> guard_F13b tag_key l = true ->
   keyify tag_key (mock_groups l) = group tag_key l
@@ -67,6 +75,17 @@ Proof.
   split; [exact (groups_agree tk l S U) | split; [exact (tags_agree tk sc l S U) | exact (same_methods_partial tk l S U)]].
 Qed.
 Print Assumptions C13_partial.
+
+(* MockAPIClient and APIClient expose the same tag properties: for every operation list, under single_tag
+   [F13a], tags_spelled_uniformly [F13b] and pairwise distinct identifier module names (the C07 guard,
+   negation of F07e), both files are importable and the two property-name sets are equal.  FULL on the
+   model (sorting = permutation, no overwrite, identifier checks included). *)
+Theorem C13_same_tags_partial : forall mn tk ta tc sc pid l,
+  guard_F13a l = true -> guard_F13b tk l = true ->
+  modules_ok tk ta sc pid (emitted_ops mn l) = true ->
+  same_tags mn tk ta tc sc pid l.
+Proof. exact same_tags_partial. Qed.
+Print Assumptions C13_same_tags_partial.
 
 Theorem C13_guard_nonvacuous :
   single_tag ops_ok13 /\ uniform key_F07c (map first_tag ops_ok13) /\ length (mock_groups ops_ok13) = 2%nat.
